@@ -431,6 +431,12 @@ def run(ctx):
     conn = a3(ctx, R)
     # "announced by the server" means by THIS connection's server: the capability table starts empty (A8 of C10)
     a8(ctx, R)
+    # ... and, with STARTTLS, announced after the handshake: the whole ordering of connect (A1-A7 of C10)
+    from .c10 import session_rules
+    session_rules(ctx, R)
+    # "returns True iff the server accepted them": the verdict is what the readers make of the server's bytes (M1-M7 of C05)
+    from .c05 import reader_rules
+    reader_rules(ctx, R)
     # "the client's preference order" is the same for every connection of the process: the list of implemented mechanisms (and the
     # list of known capabilities) has no writer (H1 of C13)
     from .proles import ParserRoles
